@@ -117,5 +117,6 @@ inline bool jbool(const json& j, const char* k, bool d = false) { return j.conta
 inline std::string jstr(const json& j, const char* k, const std::string& d = "") { return j.contains(k) ? j[k].get<std::string>() : d; }
 
 std::string hex64(uint64_t v);
+inline bool prop_is(const Ctx& c, const char* p) { return c.property == p; }
 
 } // namespace sim
